@@ -1324,9 +1324,33 @@ def check_c08(pid, tier, build, props):
                                    "witness": dict(s, reason="interpreting the graph differs from running the function")})
     nth = len(props["theorems"])
     unknown = [v for v in violations if not v.get("finding_class")]
+    # the front-end model of the semantic theorem (Src.v) against the transformer: same blocks, same
+    # instruction order, same jump targets, same creation order, on generated programs without and/or
+    from . import par, srcmodel
+    sitems = srcmodel.items_for(tier, common.seed())
+    sout, serr = par.run(sitems, srcmodel.export_item)
+    fe = {"programs": len(sitems), "agree": 0, "skipped": {}, "with_for": 0, "mismatch": 0}
+    if serr:
+        problems.append("front-end correspondence driver: %r" % serr[:1])
+    for item, meta, r in sout:
+        if meta and "harness_error" in meta:
+            problems.append("front-end correspondence harness: %r" % (meta,))
+        elif meta and "skipped" in meta:
+            fe["skipped"][meta["skipped"]] = fe["skipped"].get(meta["skipped"], 0) + 1
+        elif (meta and "model_mismatch" in meta) or r != [1, 1, 1, 1]:
+            fe["mismatch"] += 1
+            if fe["mismatch"] <= 2:
+                violations.append({"source": item, "witness": None,
+                                   "note": "graph built by the implementation differs from the model Src.build "
+                                           "(answers %r %s)" % (r, (meta or {}).get("model_mismatch", ""))})
+        else:
+            fe["agree"] += 1
+            fe["with_for"] += 1 if meta.get("fors") else 0
+    fe_ok = fe["agree"] > 0 and fe["mismatch"] == 0
     coverage = {
-        "obligations": nth + 1,
-        "discharged": (nth if props["ok"] else 0) + (1 if n_prune and ok_prune == n_prune else 0),
+        "obligations": nth + 2,
+        "discharged": (nth if props["ok"] else 0) + (1 if n_prune and ok_prune == n_prune else 0) + (1 if fe_ok else 0),
+        "front_end_model_correspondence": fe,
         "checker_cmd": "coqc Props/C08.v; build/extract/vchk (RunSrc.run_c08) on unpruned/pruned graphs; path-exhaustive "
                        "execution of source vs block-by-block interpretation of the graph",
         "trusted_base": TRUSTED + ["harness/vh/progs.py: program generator, oracle-driven executor and the block-by-block "
@@ -1346,13 +1370,20 @@ def check_c08(pid, tier, build, props):
         "traces_validated_against_impl": ok_prune,
         "explanation": "Proved (U, Prune.v): pruning removes exactly the blocks unreachable from the entry, the no-op "
                        "statements and blocks without instructions; every other instruction survives once, in order. Tie: "
-                       "model prune(unpruned graph) = the implementation's pruned graph, order-exact. NOT proved: the "
-                       "semantic statement - decided here by path-exhaustive differential execution against CPython "
-                       "(exploration, not a theorem). Known findings (test suite pins the behaviour): nested and/or "
+                       "model prune(unpruned graph) = the implementation's pruned graph, order-exact. Proved (U, Src.v / "
+                       "SrcProof.v / SrcIdx.v, C08_graph_means_source): for EVERY program of the control skeleton "
+                       "(plain statements, pass, return, break, continue, if/else, while/else, for/else in desugared "
+                       "form; any nesting), every meaning of statements and tests, every state - if the function "
+                       "returns or raises, the block-by-block interpretation of the graph built by the front-end model "
+                       "does the same in the same state. Tie: Src.build(skeleton) = the transformer's unpruned graph, "
+                       "block for block in creation order (front_end_model_correspondence). NOT proved: that pruning "
+                       "preserves meaning (census only), and/or operands, for-desugaring vs Python's for, divergence - "
+                       "decided by path-exhaustive differential execution against CPython (exploration). Known findings (test suite pins the behaviour): nested and/or "
                        "operands are hoisted eagerly; a for target is initialised to None.",
     }
     return {"coverage": coverage, "violations": violations, "problems": problems, "level": "proof",
-            "wall_s": t.s(), "broken_name": "Props/C08.v / correspondence prune / path-exhaustive comparison"}
+            "wall_s": t.s(), "broken_name": "Props/C08.v / correspondence prune / correspondence Src.build = transformer (run_src) / "
+                                            "path-exhaustive comparison"}
 
 
 def check_c07(pid, tier, build, props):
